@@ -113,6 +113,10 @@ func (l line) vecOnLine(t float64) Vec {
 // to the line.
 func (l line) distance(p Vec) float64 {
 	// https://mathworld.wolfram.com/Point-LineDistance3-Dimensional.html
+	if l[0] == l[1] {
+		// The line is a single point.
+		return Norm(Sub(p, l[0]))
+	}
 	num := Norm(Cross(Sub(p, l[0]), Sub(p, l[1])))
 	return num / Norm(Sub(l[1], l[0]))
 }
